@@ -577,7 +577,12 @@ func c03World(r *rand.Rand, exact bool) *World {
 	}
 	seen := map[string]bool{}
 	var names []string
-	for len(names) < 8 {
+	want := 8
+	if r.Intn(12) == 0 {
+		want = 40 + r.Intn(10) // enough names for days with more than 32 different foods
+		segs = append(segs, gen.Names(r, 6, gen.NameOpts{MaxLen: 4})...)
+	}
+	for len(names) < want {
 		n := mk()
 		if !seen[n] {
 			seen[n] = true
